@@ -148,12 +148,20 @@ def r3_swap(idx, r):
         s1 = fl.state_before(m1) or {}
         r.require(s1.get("saved", (0, 0))[0] >= 1 and s1.get("transfer", (0, 0)) == (1, 1), "swapAssemblies:order", f, node=m1,
                   msg="the first locator must be saved, and stationary blocks transferred, before the first move")
-        for e in fl.normal_exits():
+        same = False
+        for k_, e in enumerate(fl.normal_exits()):
             if e.node is not None and e.kind == "return":
                 conds = [norm(t) for t, p in path_conditions(f.node, e.node) if p]
-                r.require(e.state.get("move", (0, 0)) == (0, 0) and any("is None" in c for c in conds), f"swapAssemblies:early-return@{e.line}", f, node=e.node, msg="an early return must happen before anything moved and only for missing assemblies")
+                ident = any(c in (f"{a1} is {a2}", f"{a2} is {a1}") for c in conds)
+                same = same or (ident and e.state.get("transfer", (0, 0)) == (0, 0))
+                r.require(e.state.get("move", (0, 0)) == (0, 0) and e.state.get("transfer", (0, 0)) == (0, 0) and (any("is None" in c for c in conds) or ident), f"swapAssemblies:early-return#{k_}", f, node=e.node,
+                          msg="an early return must happen before anything moved or was transferred, and only for missing assemblies or a swap of an assembly with itself")
             else:
                 r.require(e.state.get("move", (0, 0)) == (2, 2), "swapAssemblies:both-move", f, msg=f"both assemblies must move on the normal path: {e.state.get('move')}")
+    if len(moves) == 2 and saved is not None:
+        r.require(same, "swapAssemblies:self-swap-skipped-before-the-transfer", f,
+                  msg="swapAssemblies(a, a) (a cascade that lists an assembly twice only warns) reaches _transferStationaryBlocks: the stationary block is removed from the assembly and the insert of "
+                      "'the other one' fails, leaving the assembly one block short and the cascade half done")
     tr = next((c for c in iter_calls(f.node) if _call(c, "self._transferStationaryBlocks")), None)
     r.require(tr is not None and [norm(x) for x in tr.args] == [a1, a2], "swapAssemblies:transfer-args", f, node=tr, msg="stationary blocks are exchanged between the two swapped assemblies")
     am = idx.method("armi.reactor.assemblies.Assembly", "moveTo")
